@@ -57,7 +57,8 @@ ScoreOf(h) == LET w == FMatMul(FMatMul(T, G), FTr(h.TV))                 \* N x 
                   ly == FFrob2(FSub(h.Y, h.yp))  ny == FFrob2(h.Y)
               IN <<num, FTrace(kvv), ly, ny>>
 ScoreClause(h) == LET s == ScoreOf(h) IN
-    IF s[2] <= 64 \/ s[4] <= 64 THEN "ok"
+    IF s[2] <= 64 \/ s[4] <= 64 THEN "ok"          \* vanishing kernel trace or target norm: the relative losses are 0/0
+    ELSE IF ~h.finite THEN "score-not-finite"
     \* -score * trKVV * nY  ~  num * nY + lY * trKVV
     ELSE IF FAbs(FMul(FMul(-h.score, s[2]), s[4]) - (FMul(s[1], s[4]) + FMul(s[3], s[2])))
             > 16 * (Len(h.KVV) + N) * (Mag(KNN) + 2) * (s[4] \div S + 2) + (FMul(s[2], s[4]) \div 100) THEN "score-differs-from-documented-loss"
